@@ -723,4 +723,4 @@ TECHNIQUE = ("Lean 4 theorems by structural induction (via C04's loop = recursio
 LEVEL_TEXT = ("Kernel-checked for every tree shape and numbering: the kept rows are exactly the designated nodes, the compaction renumbers them 0..m-1 in order, "
               "every kept non-root row's new parent is the new id of its old parent, the new root has none, the mapping lists the old ids, every column is read "
               "through the mapping. Removal marks reach exactly the descendants of marked nodes.")
-LEVEL_NOTE = "Trusted: Lean kernel; the imperative translator and its semantics library Model/Py.lean for to_sub_topology / get_subtree_impl / propagate_removal (cross-checked by running the generated definitions, ops gsubtopo / gsubtree / gtosub); hand-written callback models tied by correspondence (exhaustive for all sorted trees with n ≤ 4/5); numpy fancy indexing."
+LEVEL_NOTE = "Trusted: Lean kernel; the imperative translator and its semantics library Model/Py.lean for to_sub_topology / get_subtree_impl / propagate_removal (cross-checked by running the generated definitions, ops gsubtopo / gsubtree / gtosub), and for to_subtree / cut_tree with its closures _enter / _leave calling the user's callback / CutByType.__call__ / CutByFurcationOrder._enter (Gen/AlgoCut.lean, proved equal to Sub.toSubtree / cutTreeEnter / cutTreeLeave / cutByType / cutByOrder in Refine/Cut.lean, ops gtosubtree / gcutenter / gcutdepth / gcutleave / gcutleaveset / gcuttype / gcutorder); the remaining hand-written callback model (CutShortTipBranch) tied by correspondence (exhaustive for all sorted trees with n ≤ 4/5); numpy fancy indexing."
